@@ -93,6 +93,11 @@ class Analysis:
         self.ok_points = []             # (state, kind) at assignments of Ok-tagged values to _0
         self.ret_states = []
         self.final = False
+        self.bases = {}
+        self._parent_sid = None
+        self.reads = []        # integer reads from byte slices (A10)
+        self.slices = []       # sub-slices taken (A10)
+        self.derived = {}      # symbol -> symbols it was computed from
         self.dispatch = None
         self.debug = False
         self.pending = {}               # callsite id -> info for Ok-summaries
@@ -611,7 +616,22 @@ class Analyzer(Analysis):
         else:
             return None
         st.store["len:" + sid] = ("lin", nl)
+        lo = idx[1] if k in ("range", "rangefrom") else Lin.const(0)
+        self.bases[sid] = (self._parent_sid, lo)
         return ("slice", sid)
+
+    def root_of(self, sid):
+        """(root slice id, offset Lin from its start)"""
+        off = Lin.const(0)
+        seen = 0
+        while sid in self.bases and seen < 8:
+            p, lo = self.bases[sid]
+            if p is None or lo is None:
+                break
+            off = off + lo
+            sid = p
+            seen += 1
+        return sid, off
 
     # ------------------------------------------------------------------ terminators
     def do_assert(self, st, t, bi):
@@ -760,7 +780,12 @@ class Analyzer(Analysis):
                 idx = vals[1] if len(vals) > 1 else None
                 self.check_index(st, o, ln, idx, None)
                 if idx is not None and idx[0] != "lin":
+                    self._parent_sid = vals[0][1] if (vals[0] is not None and vals[0][0] in ("slice", "ref")) else None
                     result = self.slice_result(st, dest_key, ln, idx, bi)
+                    if self.final and result is not None:
+                        r0, off0 = self.root_of(result[1])
+                        self.slices.append({"bi": bi, "sid": result[1], "root": r0, "off": off0, "kind": idx[0],
+                                            "len": st.store["len:" + result[1]][1], "sp": sp})
                     if result is not None and vals[0] is not None and vals[0][0] in ("slice", "ref"):
                         ev["slice_of"] = vals[0][1]
                 handled = True
@@ -808,6 +833,9 @@ class Analyzer(Analysis):
                 if v is not None and v[0] == "known" and v[1] in ("Ok", "Some"):
                     o.ok = True
                     o.why = v[2]
+                elif v is not None and v[0] == "callres" and self.pending.get(v[1], {}).get("known"):
+                    o.ok = True
+                    o.why = self.pending[v[1]]["known"][1]
                 elif v is not None and v[0] == "lockres":
                     o.kind = "call:lock_unwrap"
                     o.detail = "LockResult::unwrap panics when the lock is poisoned"
@@ -866,6 +894,18 @@ class Analyzer(Analysis):
             elif INT_CONV.search(name):
                 r = int_range(dest_ty)
                 la = self.as_lin(vals[0]) if vals else None
+                m_ = re.search(r"::(from_be_bytes|from_le_bytes|from_ne_bytes)$", name)
+                if m_ and vals and vals[0] is not None and vals[0][0] == "arr" and r is not None:
+                    s_ = self.sym("rd%d" % bi, r)
+                    root, off = self.root_of(vals[0][1])
+                    if self.final:
+                        self.reads.append({"bi": bi, "sym": "rd%d" % bi, "root": root, "off": off, "width": dest_ty["w"] // 8,
+                                           "order": {"from_be_bytes": "BE", "from_le_bytes": "LE", "from_ne_bytes": "NE"}[m_.group(1)],
+                                           "signed": dest_ty["sg"], "sp": sp})
+                    self.write(st, dest_key, ("lin", s_))
+                    if self.final:
+                        self.events.append(ev)
+                    return
                 if la is not None and la.is_const() and name.endswith("::trailing_zeros"):
                     pass
                 if name.endswith(("::to_be", "::from_be", "::to_le", "::from_le")) and dest_ty["k"] == "int" and dest_ty["w"] == 8 and la is not None:
@@ -1055,14 +1095,22 @@ class Analyzer(Analysis):
                 result = ("lockres", bi)
                 handled = True
             elif name.endswith("as std::convert::TryInto<U>>::try_into") and vals:
-                # &[T] -> [T; N] succeeds iff the lengths agree
+                # &[T] -> [T; N] succeeds iff the lengths agree; the Ok payload is the bytes of that slice
                 ln = self.slice_len_of_val(st, vals[0], self.op_ty(args[0]))
                 ok_t = self.types[dest_ty["args"][0]] if dest_ty.get("args") else None
+                cs = "ti%d" % bi
+                info = {"variant_facts": {}}
                 if ln is not None and ok_t is not None and ok_t["k"] == "array" and ok_t["n"] is not None:
                     n = Lin.const(ok_t["n"])
                     if self.holds(st, ln - n) and self.holds(st, n - ln):
-                        result = ("known", "Ok", "slice length equals array length %d" % ok_t["n"])
-                handled = True
+                        info["known"] = ("Ok", "slice length equals array length %d" % ok_t["n"])
+                self.pending[cs] = info
+                self.write(st, dest_key, ("callres", cs))
+                if vals[0] is not None and vals[0][0] == "slice":
+                    st.store[dest_key + "@Ok.0"] = ("arr", vals[0][1])
+                if self.final:
+                    self.events.append(ev)
+                return
         if c is not None and not handled:
             # local callee with a summary?
             summ = self.summaries.get(c["id"]) if c["resolved"] else None
@@ -1117,6 +1165,8 @@ class Analyzer(Analysis):
                         facts.append(before + summ["adv_min"] - after)
                     if summ.get("out_le_len") and data_len is not None:
                         facts.append(after - data_len)
+                    if summ.get("out_ge_len") and data_len is not None:
+                        facts.append(data_len - after)
                     if summ.get("adv_max") is not None:
                         facts.append(after - before - summ["adv_max"])
                 ev["cursor"] = (cursor, before, after)
@@ -1179,6 +1229,9 @@ class Analyzer(Analysis):
         ev["result"] = result
         self.write(st, dest_key, result)
         self.decompose(st, dest_key, result)
+        if result is not None and result[0] == "callres" and c is not None and ev.get("argmap") is not None:
+            st.store[dest_key + "@Ok.0"] = ("parsed", result[1])
+            self.pending[result[1]]["parse_call"] = {"callee": c, "bi": bi, "cursor": ev.get("cursor"), "argmap": ev.get("argmap"), "sp": sp}
         if result is None and dest_ty["k"] in ("int", "bool", "char"):
             st.store[dest_key] = ("lin", self.sym("ret%d" % bi, int_range(dest_ty)))
         if self.final:
